@@ -60,11 +60,7 @@ impl AsyncRead for Src {
         let avail = s.data.len() - s.pos;
         let maxk = avail.min(buf.len());
         // options: deliver maxk (or Ok(0)), deliver smaller k (free), Pending (1), transient error (1)
-        let mut costs: Vec<u8> = Vec::with_capacity(maxk + 3);
-        costs.push(0);
-        for _ in 1..maxk {
-            costs.push(0);
-        }
+        let (sizes, mut costs) = size_menu(maxk, s.data.len() > 32);
         let deliver_opts = costs.len();
         let can_pend = s.consecutive_pending < s.lim.p;
         let can_err = s.errors < s.lim.e;
@@ -76,7 +72,7 @@ impl AsyncRead for Src {
         }
         let c = s.ch.borrow_mut().choose("poll_read", &costs);
         if c < deliver_opts {
-            let k = if maxk == 0 { 0 } else { maxk - c };
+            let k = sizes[c];
             let p = s.pos;
             buf[..k].copy_from_slice(&s.data[p..p + k]);
             s.pos += k;
@@ -110,11 +106,13 @@ pub struct Scenario {
     /// number of stream bytes delivered before the stream ends
     pub avail: usize,
     pub max_len: Option<u32>,
+    /// construct the reader with `with_buffer` and a recycled buffer (stale content, spare capacity)
+    pub dirty: bool,
 }
 
 impl Scenario {
     fn json(&self) -> serde_json::Value {
-        json!({"frames": describe(&self.frames), "stream_hex": refmodel::hex(&wire(&self.frames)), "bytes_before_end_of_stream": self.avail, "max_len": self.max_len})
+        json!({"frames": describe(&self.frames), "stream_hex": refmodel::hex(&wire(&self.frames)), "bytes_before_end_of_stream": self.avail, "max_len": self.max_len, "with_buffer": self.dirty})
     }
 }
 
@@ -151,7 +149,7 @@ pub fn run_logged(sc: &Scenario, lim: Limits, ch: SharedChooser, obs_out: &mut O
         ch: ch.clone(),
         log: if verbose { Some(Vec::new()) } else { None },
     }));
-    let mut reader = AsyncReader::new(Src(st.clone()));
+    let mut reader = if sc.dirty { AsyncReader::with_buffer(Src(st.clone()), dirty_buffer()) } else { AsyncReader::new(Src(st.clone())) };
     let max_len = match sc.max_len {
         Some(m) => {
             reader.set_max_len(m);
@@ -284,8 +282,30 @@ pub fn scenarios(tier: Tier) -> (Vec<Scenario>, Limits, String) {
                 if avail < total && !(ml.is_none() || ml == Some(largest)) {
                     continue;
                 }
-                out.push(Scenario { frames: fs.clone(), avail, max_len: ml });
+                out.push(Scenario { frames: fs.clone(), avail, max_len: ml, dirty: false });
+                if ml.is_none() && avail == total {
+                    out.push(Scenario { frames: fs.clone(), avail, max_len: ml, dirty: true });
+                }
             }
+        }
+    }
+    // large frames: the payload length crosses a byte boundary of the length prefix
+    for big in large_frames() {
+        let l = big.payload.len();
+        let huge = l > 1000;
+        if huge && tier == Tier::Quick && l != 65536 {
+            continue;
+        }
+        let seqs = if huge || tier == Tier::Quick { vec![vec![big.clone()]] } else { vec![vec![big.clone()], vec![kinds[0].clone(), big.clone()]] };
+        for fs in seqs {
+            let total = wire(&fs).len();
+            let lead = if fs.len() == 1 { 0 } else { 4 + kinds[0].payload.len() };
+            let cuts = if huge { vec![total, total - 1, lead + 4 + l / 2] } else { vec![total, total - 1, lead + 4 + l / 2, lead + 4, lead + 3] };
+            for avail in cuts {
+                out.push(Scenario { frames: fs.clone(), avail, max_len: None, dirty: false });
+            }
+            out.push(Scenario { frames: fs.clone(), avail: total, max_len: Some(l as u32), dirty: true });
+            out.push(Scenario { frames: fs.clone(), avail: total, max_len: Some(l as u32 - 1), dirty: false });
         }
     }
     // hostile declared lengths, always last, full stream and one truncation
@@ -294,13 +314,13 @@ pub fn scenarios(tier: Tier) -> (Vec<Scenario>, Limits, String) {
             let mut fs = lead.clone();
             fs.push(h.clone());
             let total = wire(&fs).len();
-            out.push(Scenario { frames: fs.clone(), avail: total, max_len: None });
-            out.push(Scenario { frames: fs.clone(), avail: total, max_len: Some(8) });
+            out.push(Scenario { frames: fs.clone(), avail: total, max_len: None, dirty: false });
+            out.push(Scenario { frames: fs.clone(), avail: total, max_len: Some(8), dirty: true });
         }
     }
     out.sort_by_key(|s: &Scenario| std::cmp::Reverse(s.avail));
     let bound = format!(
-        "streams of 0..={} frames over {} payload kinds, <= {} bytes, every truncation point, max_len in {{default, L-1, L, L+1}}; source: all delivery sizes (free), <= {} consecutive Pending, <= {} transient errors; caller: <= {} dropped futures; total deviation budget {}",
+        "streams of 0..={} frames over {} payload kinds, <= {} bytes, every truncation point, max_len in {{default, L-1, L, L+1}}, plus frames with payloads of 255..65537 bytes (reads of more than 32 bytes delivered whole or, as one deviation each, as 1 / half / all-but-one bytes); AsyncReader::new and ::with_buffer(recycled buffer); source: all delivery sizes (free), <= {} consecutive Pending, <= {} transient errors; caller: <= {} dropped futures; total deviation budget {}",
         max_frames, kinds.len(), max_bytes, lim.p, lim.e, lim.d, lim.b
     );
     (out, lim, bound)
@@ -380,12 +400,13 @@ pub fn run(r: &Report) {
 pub fn replay_case(case: &serde_json::Value) -> Result<(), String> {
     let sc = &case["scenario"];
     let names: Vec<String> = sc["frames"].as_array().unwrap().iter().map(|x| x.as_str().unwrap().to_string()).collect();
-    let all: Vec<Frame> = frame_kinds().into_iter().chain(hostile_frames()).collect();
+    let all: Vec<Frame> = frame_kinds().into_iter().chain(hostile_frames()).chain(large_frames()).collect();
     let frames: Vec<Frame> = names.iter().map(|n| all.iter().find(|f| f.name == n).unwrap().clone()).collect();
     let scen = Scenario {
         frames,
         avail: sc["bytes_before_end_of_stream"].as_u64().unwrap() as usize,
         max_len: sc["max_len"].as_u64().map(|x| x as u32),
+        dirty: sc["with_buffer"].as_bool().unwrap_or(false),
     };
     let choices: Vec<u32> = case["choices"].as_array().unwrap().iter().map(|x| x.as_u64().unwrap() as u32).collect();
     let l = &case["limits"];
